@@ -139,22 +139,32 @@ func postResponse(ctx context.Context, s types.Store, response *types.Response, 
 		return
 	}
 	response.StartTime = request.StartTime
+	// Both writes below can fail, so collect their errors in a channel with
+	// room for both of them; otherwise the second failing write would block
+	// forever on a full channel and wg.Wait() would never return.
+	//
+	// At most one error is ever sent on errChan.
+	writeErrs := make(chan error, 2)
 	var wg sync.WaitGroup
 	wg.Add(2)
 	go func() {
 		defer wg.Done()
 		if err := s.WriteResponse(ctx, response); err != nil {
-			errChan <- err
+			writeErrs <- err
 		}
 	}()
 	go func() {
 		defer wg.Done()
 		request.Completed = true
 		if err := s.WriteRequest(ctx, request); err != nil {
-			errChan <- err
+			writeErrs <- err
 		}
 	}()
 	wg.Wait()
+	close(writeErrs)
+	if err, ok := <-writeErrs; ok {
+		errChan <- err
+	}
 }
 
 func checkBackendID(ctx context.Context, s types.Store, r *http.Request) (string, error) {
